@@ -31,7 +31,12 @@ __all__ = ['lvs_validator']
 
 
 def lvs_validator(checker: Checker, app: NDNApp, trust_anchor: BinaryStr,
-                  storage: PublicKeyStorage = MemoryKeyStorage()) -> Validator:
+                  storage: PublicKeyStorage | None = None) -> Validator:
+    # A default argument would be one key cache shared by every validator ever created,
+    # whatever its schema and trust anchor
+    if storage is None:
+        storage = MemoryKeyStorage()
+
     async def validate_name(name: FormalName, sig_ptrs: SignaturePtrs) -> bool:
         if (not sig_ptrs.signature_info or not sig_ptrs.signature_info.key_locator
                 or not sig_ptrs.signature_info.key_locator.name):
